@@ -88,7 +88,7 @@ class Engine(object):
         n = fn.N(i)
         k = n['k']
         if k == 'DeclRefExpr':
-            return n['ref']
+            return getattr(self, '_alias', {}).get(n['ref'], n['ref'])      # reference parameter of an inlined callee stands for the caller's object
         if k == 'CXXThisExpr':
             return 'this'
         if k == 'MemberExpr' and n['ch'] and not n.get('ref', '').startswith('fn:'):
@@ -935,6 +935,13 @@ class Engine(object):
         args = fn.args(i)
         for p, a in zip(g.params, args):
             pt = g.types[p['t']]
+            if (pt or '').rstrip().endswith('&') and not (pt or '').rstrip().endswith('&&'):
+                pa = self.path_atom(fn, a)
+                if pa is not None:
+                    if not hasattr(self, '_alias'):
+                        self._alias = {}
+                    self._alias[p['ref']] = pa
+                    continue
             st2.env[p['ref']] = self.value(fn, st, a)
         saved = {k: v for k, v in st.val.items()}
         st2.val = {}
